@@ -480,6 +480,32 @@ def handshake_case(rng, B):
     B.cases.append(render)
 
 
+def michael_case(rng, B):
+    """KF-C09-4, reproduced on every run: TKIP frames whose ICV verifies and whose Michael MIC does not —
+    (a) the destination address changed in the header, (b) payload bits flipped with the CRC-linear ICV fix-up"""
+    import zlib
+    bssid, sta, da = [rand_bytes(rng, 6) for _ in range(3)]
+    ptk = rand_bytes(rng, 80)
+    h = mac_header(0, 1, 0, bssid, sta, da, seq=rng.randrange(4096))
+    pt = bytes([0xaa, 0xaa, 3, 0, 0, 0, 0x88, 0xb5]) + rand_bytes(rng, rng.randint(4, 40))
+    idx = B.want(f"tkipenc {hx(ptk[32:48])} {hx(ptk[56:64])} {hx(sta)} {hx(da)} {hx(sta)} 0 {rng.randrange(1, 2**32)} 0 {hx(pt)}")
+
+    def render(bodies):
+        body = bodies[idx]
+        ops = ["case", f"ptk {hx(bssid)} {hx(sta)} {hx(ptk)} 0",
+               f"wpa {hx(h + body)} @ enc tkip {hx(ptk[32:48])} {hx(pt)} 1"]
+        h2 = bytearray(h); h2[16 + rng.randrange(6)] ^= 1 << rng.randrange(8)          # DA is addr3 of a to-DS frame
+        ops += ["case", f"ptk {hx(bssid)} {hx(sta)} {hx(ptk)} 0", f"wpa {hx(bytes(h2) + body)}"]
+        L = len(pt) + 8
+        d = bytearray(L); d[8 + rng.randrange(len(pt) - 8)] ^= 1 << rng.randrange(8)
+        fix = zlib.crc32(bytes(d)) ^ zlib.crc32(bytes(L))
+        delta = bytes(8) + bytes(d) + fix.to_bytes(4, "little")
+        forged = bytes(a ^ b for a, b in zip(body, delta))
+        ops += ["case", f"ptk {hx(bssid)} {hx(sta)} {hx(ptk)} 0", f"wpa {hx(h + forged)}"]
+        return ops
+    B.cases.append(render)
+
+
 def aes_ops(rng, n):
     ops = ["case", "aes 000102030405060708090a0b0c0d0e0f 00112233445566778899aabbccddeeff"]
     for _ in range(n):
@@ -502,6 +528,8 @@ def gen_ops(rng, tier, exe):
     hostile_case(rng, B, list(range(0, 40)), False, wep=True)
     for i in range(60 if quick else 1500):
         handshake_case(rng, B)
+    for i in range(2 if quick else 20):
+        michael_case(rng, B)
     return aes_ops(rng, 20 if quick else 400) + B.run()
 
 
